@@ -320,6 +320,10 @@ func c08Matrix() ([]c08Prov, []c08Xform) {
 		bin("ADD", 0x93, k(3)), bin("SUB", 0x94, k(3)), bin("MUL", 0x95, k(3)), bin("DIV", 0x96, k(3)), bin("MOD", 0x97, k(3)),
 		bin("CAT", 0x7e, k(0xaa, 0xbb)), bin("SPLIT", 0x7f, k(1)), bin("MIN", 0xa3, k(3)), bin("MAX", 0xa4, k(3)),
 		{"TOALT-BIN2NUM", func([]byte) []byte { return []byte{0x6b, 0x6c, 0x81} }},
+		// both operands are the very same item (x DUP <op>), with further holders of x around
+		{"DUP-XOR", func([]byte) []byte { return []byte{0x76, 0x86} }}, {"DUP-AND", func([]byte) []byte { return []byte{0x76, 0x84} }}, {"DUP-OR", func([]byte) []byte { return []byte{0x76, 0x85} }},
+		{"DUP-CAT", func([]byte) []byte { return []byte{0x76, 0x7e} }}, {"DUP-ADD", func([]byte) []byte { return []byte{0x76, 0x93} }}, {"DUP-SUB", func([]byte) []byte { return []byte{0x76, 0x94} }},
+		{"DUP-MUL", func([]byte) []byte { return []byte{0x76, 0x95} }}, {"DUP-MIN", func([]byte) []byte { return []byte{0x76, 0xa3} }},
 	}
 	return provs, xf
 }
@@ -334,7 +338,7 @@ var c08Operands = [][]byte{
 func init() {
 	p := &mon.Property{
 		ID: "C08",
-		Rule: "Matrix: 16 provenance patterns (push straight from the script, DUP, 2DUP, 3DUP, OVER, 2OVER, PICK, TUCK, IFDUP, both SPLIT halves, alt-stack round trips, ROT/SWAP/ROLL of a duplicate) x 32 value-changing transformers (INVERT, AND/OR/XOR, LSHIFT/RSHIFT by 1 and 9, BIN2NUM, NUM2BIN, 1ADD..0NOTEQUAL, ADD..MOD, CAT, SPLIT, MIN/MAX, hashes) x 12 operand encodings (minimal, non-minimal, negative zero, 4/8/9-byte) x both eras x {tx, scripts-only} x split point; plus the structured random programs, node vectors and their mutants of C05, and signature programs (P2PK, P2PKH, two-check, m-of-n multisig with valid / invalid / malformed signatures and keys, code separators, all signature flag subsets) on generated multi-input transactions carrying previous-output information on every input. " +
+		Rule: "Matrix: 16 provenance patterns (push straight from the script, DUP, 2DUP, 3DUP, OVER, 2OVER, PICK, TUCK, IFDUP, both SPLIT halves, alt-stack round trips, ROT/SWAP/ROLL of a duplicate) x 40 value-changing transformers (INVERT, AND/OR/XOR, the binary ones also with both operands being one item (x DUP op), LSHIFT/RSHIFT by 1 and 9, BIN2NUM, NUM2BIN, 1ADD..0NOTEQUAL, ADD..MOD, CAT, SPLIT, MIN/MAX, hashes) x 12 operand encodings (minimal, non-minimal, negative zero, 4/8/9-byte) x both eras x {tx, scripts-only} x split point; plus the structured random programs, node vectors and their mutants of C05, and signature programs (P2PK, P2PKH, two-check, m-of-n multisig with valid / invalid / malformed signatures and keys, code separators, all signature flag subsets) on generated multi-input transactions carrying previous-output information on every input. " +
 			"Per execution: caller-buffer canary (scripts, tx serialisation, previous output), frame rule on the library's own Before/AfterStep snapshots, lock-step with the reference model. " +
 			"distinct_nontrivial = distinct programs with >= 3 executed steps on which at least one frame-rule comparison was performed and all oracles agreed.",
 		Assum: []string{"footprint table (how many top items an opcode may touch) written from the opcode definitions; PICK/ROLL/CHECKMULTISIG are not judged by the frame rule (operand dependent) but by the lock-step comparison",
